@@ -30,6 +30,7 @@ EXTRA = [
     _c("ROC2r8_", "ROC", period=2, round_value=8),
     _c("VWAPr8_", "VWAP", round_value=8),
     _c("WMA4", "WMA", period=4),
+    _c("HMA2", "HMA", period=2),
     _c("RSI3r8_", "RSI", period=3, round_value=8),
     _c("MACD232r2_", "MACD", fast_period=2, slow_period=3, signal_period=2, round_value=2),
     _c("MACD32swap", "MACD", fast_period=3, slow_period=2, signal_period=2),
@@ -182,7 +183,7 @@ def placements(cfg, tier):
     if cfg["cls"] not in HAS_INPUT:
         return [("field", "close")]
     ks = (1, 2, 3) if tier == "quick" else (1, 2, 3, 5)
-    return [("field", "close"), ("field", "high")] + [("late", k) for k in ks]
+    return [("field", "close"), ("field", "high"), ("field", "volume")] + [("late", k) for k in ks]
 
 
 def one(prop, rep, cfg, word, raw, placement, horizon):
